@@ -201,6 +201,9 @@ def r4(ctx):
       ok = okl and len(un) == 1 and len(un[0].targets[0].elts) == 3 and len(ups) == 1
       if ok:
         ok = U(ups[0].func.value) == U(un[0].targets[0].elts[0]) and U(ups[0].args[0]) == stream
+      elif okl and not un and len(ups) == 1:
+        # the entry is read by position instead of being unpacked
+        ok = U(ups[0].func.value).replace(' ', '') == '%s[0]' % var and U(ups[0].args[0]) == stream
       ctx.ob('C02.R4', f, 'reply delivered once to the stack (field 0) of the entry registered under its tag', ok,
              'lookup %s, unpack %s, delivery %s' % (U(rel[0].value), [U(u) for u in un], [U(u) for u in ups]), why)
     else:
